@@ -34,14 +34,14 @@ def gen_program(rng):
     consts = ground_util.CONSTS[:rng.choice([2, 2, 3])]
     preds = {}
     stmts = []
-    nbase = rng.randint(1, 3)
+    nbase = rng.randint(2, 3)
     for i in range(nbase):
         ar = rng.choice([1, 1, 2, 2, 0])
         name = "f%d" % i
         preds[name] = (ar, 0)
         insts = list(itertools.product(consts, repeat=ar))
         rng.shuffle(insts)
-        for args in insts[:rng.randint(1, min(len(insts), 5))]:
+        for args in insts[:rng.randint(min(2, len(insts)), min(len(insts), 7))]:
             r = rng.random()
             if r < 0.7:
                 stmts.append(("pf", F(rng.randint(1, 9), 10), (name, args)))
@@ -702,3 +702,168 @@ def parse_model(out):
                     cur = ""
         return out
     return (" ".join(sorted(entries(m.group(1)))), " ".join(sorted(entries(m.group(2)))), spine.canon_store(m.group(3)))
+
+
+# ------------------------------------------------------------------------------------------------ the phase
+MODULE = "ProbLogProofs.Properties.C01GroundFO"
+THEOREMS = []          # filled in below when the property file exists (see `_theorems`)
+
+
+def _theorems():
+    import os
+    from lib import LEAN
+    path = os.path.join(LEAN, "ProbLogProofs", "Properties", "C01GroundFO.lean")
+    if not os.path.exists(path):
+        return []
+    return ["ProbLogProofs.C01GroundFO." + m for m in re.findall(r"^theorem (C0\w+|GroundFO_\w+)", open(path).read(), re.M)]
+
+
+def _work(item):
+    P, mode, seed, probs = item
+    return run_real(P, mode, seed, probs)
+
+
+def gen_mixed(rng):
+    """70% own generator, 30% spine's generator (C01's, without positive recursion / body disjunction)."""
+    while True:
+        if rng.random() < 0.3:
+            P = from_spine(rng)
+            if P is None:
+                continue
+            return P
+        return gen_program(rng)
+
+
+def phase(ctx, kind, nq, nt):
+    """kind: "all" (C01), "sched" (C03), "history" (C08) - as `ground_util.phase`, on programs with variables."""
+    from lib import pmap
+    ths = _theorems()
+    if ths:
+        ctx.proof_phase(MODULE, ths)
+    drv = ctx.driver("Drivers.GroundFO")
+    sdrv = ctx.driver("Drivers.Spine")
+    if drv is None or sdrv is None:
+        return
+    rng = ctx.sub_rng("ground-fo-" + kind)
+    n = ctx.budget(nq, nt)
+    items = []
+    if ctx.replay_in:
+        import json
+        rp = json.load(open(ctx.replay_in)).get("replay", {})
+        if not str(rp.get("tag", "")).startswith("groundfo-"):
+            return
+        items.append((ground_util._restore(rp["program"], rp.get("history")), rp["mode"], rp.get("sched_seed"), False))
+        n = 1
+    else:
+        for P in [gen_mixed(rng) for _ in range(n)]:
+            if kind == "all":
+                items.append((P, "all", None, False))
+            elif kind == "sched":
+                items.append((P, "all", rng.randrange(1 << 30), False))
+            else:
+                items.append((P, "history", rng.randrange(1 << 30) if rng.random() < 0.5 else None, False))
+    reals = [_work(x) for x in items] if len(items) <= 500 else pmap(_work, items, chunksize=32)
+    lines = []
+    for (P, mode, seed, _), R in zip(items, reals):
+        calls = calls_of(P, mode)
+        lines.append(model_line(compile_model(P, calls), calls, R.get("sched", {})))
+    outs = drv.run(lines)
+    nbad = 0
+    for (P, mode, seed, _), R, out in zip(items, reals, outs):
+        src = clauses_src(P)
+        calls = calls_of(P, mode)
+        ctx.case("groundfo:%s:%s:%s:%s" % (kind, src, calls, seed),
+                 nontrivial=any(s[0] in ("rule", "prule", "ad") for s in P["stmts"]))
+        ctx.count("groundfo-model:" + kind)
+        if R.get("tn"):
+            ctx.count("groundfo-model:non-ground goals tabled")
+        if seed is not None and R.get("sched"):
+            ctx.count("groundfo-model:permuted-batches", len(R["sched"]))
+        M = parse_model(out)
+        diff = None
+        if "error" in R:
+            diff = "engine raised %s at %s; model: %s" % (R["error"][0], R["error"][1], str(M)[:200])
+        elif isinstance(M, str):
+            diff = "model: %s; engine grounded without error" % M
+        elif "sched_mismatch" in R:
+            diff = "sibling batches: " + R["sched_mismatch"]
+        elif M[2] != R["store"]:
+            diff = "ground programs differ\n engine: %s\n model:  %s" % (R["store"], M[2])
+        elif M[0] != R["tg"]:
+            diff = "ground tables differ\n engine: %s\n model:  %s" % (R["tg"], M[0])
+        elif M[1] != R["tn"]:
+            diff = "non-ground tables differ\n engine: %s\n model:  %s" % (R["tn"], M[1])
+        if len([x for x in ctx.samples if isinstance(x, dict) and "groundfo-model" in x]) < 1:
+            ctx.sample({"groundfo-model": kind, "src": src, "calls": str(calls), "sched": R.get("sched"),
+                        "store": R.get("store", "")[:300]}, limit=8)
+        if diff is None:
+            continue
+        nbad += 1
+        ctx.disagree("grounding engine vs first-order model (%s)" % kind, "%s | program: %s | calls: %s | sched seed %s" % (
+            diff, src.replace("\n", " "), calls, seed))
+        if nbad <= 8:
+            find_failing_input(ctx, sdrv, P, mode, seed, kind)
+    ctx.obligation("correspondence: grounding engine = first-order model on %d programs with variables (%s)" % (n, kind),
+                   nbad == 0, "%d differences" % nbad)
+
+
+def sem_view(P, mode):
+    """The program as `spine.sem_line` understands it: repeated-variable queries expanded to their ground instances,
+    non-ground evidence dropped (both for the engine run and for the specification)."""
+    calls = calls_of(P, mode)
+    qs, evs = [], {}
+    for l, a in calls:
+        if l == "query":
+            if any(x in VARSET for x in a[1]):
+                for c in P["consts"]:
+                    g = (a[0], tuple(c if x in VARSET else x for x in a[1]))
+                    if len({x for x in a[1] if x in VARSET}) == 1 and "_" not in a[1] and g not in qs:
+                        qs.append(g)
+            elif a not in qs:
+                qs.append(a)
+        elif not any(is_var(x) for x in a[1]):
+            evs[a] = (l == "evidence+")
+    Q = dict(P, queries=qs, evidence=list(evs.items()))
+    Q["history"] = [("query", q) for q in qs] + [("evidence+" if v else "evidence-", a) for a, v in Q["evidence"]]
+    return Q
+
+
+def _check_sem(ctx, sdrv, P, mode, seed, kind):
+    Q = sem_view(P, mode)
+    if not Q["queries"]:
+        return Q, []
+    sem = semcheck.spec_batch(sdrv, [Q])[0]
+    R = run_real(Q, "all", seed, want_probs=True)
+    run = ("error", ("ground", R["error"][0], R["error"][1])) if "error" in R else R["probs"]
+    return Q, semcheck.compare(Q, sem, run, "groundfo-%s" % kind, ctx)
+
+
+def find_failing_input(ctx, sdrv, P, mode, seed, kind):
+    Q, bad = _check_sem(ctx, sdrv, P, mode, seed, kind)
+    for what, sig in bad:
+        small = Q
+        if getattr(ctx, "_groundfo_nshrunk", 0) < 2 and ctx.known_match(sig) is None:
+            ctx._groundfo_nshrunk = getattr(ctx, "_groundfo_nshrunk", 0) + 1
+            from props.c01 import shrink_program
+
+            def still(c):
+                if not in_fragment(c):
+                    return False
+                return any(semcheck.same_failure(s2, sig) for _, s2 in _check_sem(ctx, sdrv, c, "all", seed, kind)[1])
+            try:
+                small = shrink_program(Q, still)
+            except Exception:
+                small = Q
+        small = sem_view(small, "all")
+        ctx.fail(what + " | program: " + spine.to_src(small).replace("\n", " "),
+                 {"program": small, "src": spine.to_src(small), "tag": "groundfo-" + kind, "mode": "all", "sched_seed": seed,
+                  "history": small.get("history")}, sig)
+        break
+
+
+def guarded(ctx, kind, nq, nt):
+    try:
+        phase(ctx, kind, nq, nt)
+        return None
+    except Exception as e:     # noqa: B902 - reported by ground_util.after
+        return "%s: %s | %s" % (type(e).__name__, e, traceback.format_exc()[-1500:])
